@@ -70,11 +70,18 @@ pub fn add_capture_idiom(u: &mut Choices, file: &mut File, doc: &V) {
     let cap = format!("cap{}", n);
     let cnt = format!("cap{}n", n);
     let def = format!("capdef{}", n);
-    let filt = vec![vec![Item::Clause(cl_bin(q_key(&["Type"]), BinOp::Eq, false, Lit::V(V::Str(ty))))]];
-    let capq = Query { head: Head::Key("Resources".into()), parts: vec![Part::CapFilter(cap.clone(), filt)] };
+    // either the keys of one map (the resources of a type) or of several maps at once (the property
+    // names of every resource: equal names at different paths)
+    let capq = if u.chance(1, 2) {
+        let filt = vec![vec![Item::Clause(cl_bin(q_key(&["Type"]), BinOp::Eq, false, Lit::V(V::Str(ty))))]];
+        Query { head: Head::Key("Resources".into()), parts: vec![Part::CapFilter(cap.clone(), filt)] }
+    } else {
+        let filt = vec![vec![Item::Clause(cl_un(Query { head: Head::This, parts: vec![] }, UnOp::Exists, false))]];
+        Query { head: Head::Key("Resources".into()), parts: vec![Part::Star, Part::Key("Properties".into()), Part::CapFilter(cap.clone(), filt)] }
+    };
     file.lets.push(Let { name: cnt.clone(), value: Expr::Call(Call { name: "count".into(), args: vec![Expr::Query { some: false, q: Query { head: Head::Var(cap.clone()), parts: vec![] } }] }) });
     let def_rule = Rule { name: def.clone(), when: None, lets: vec![], body: vec![vec![Item::Clause(cl_un(capq, if u.chance(1, 2) { UnOp::Empty } else { UnOp::Exists }, u.chance(1, 2)))]] };
-    let k = u.below(4) as i64;
+    let k = u.below(6) as i64;
     let mut body = vec![vec![Item::Ref { neg: false, name: def.clone(), msg: None }]];
     if u.chance(1, 3) {
         body[0].push(Item::Ref { neg: true, name: def.clone(), msg: None });
